@@ -194,17 +194,69 @@ def rules(ctx, tier):
                 # the attempt is enough here: if it failed and the failure were ignored, the rename fails for want of
                 # the directory (that a failure is not ignored is C14-R1's business)
                 edges += [(m.bb, x) for x in b.succs(m.bb)]
+            # the stored layout setting, as the manager keeps it: a bool, or a fieldless enum made from it
+            mgr_marks = set(mgr_flags)
+            if mgr in prog.adts:
+                for f_ in prog.adts[mgr]["variants"][0]["fields"]:
+                    d_ = prog.adt_of(f_["ty"])[0]
+                    a_ = prog.adts.get(d_)
+                    if a_ is not None and a_.get("kind") == "Enum" and not any(v_["fields"] for v_ in a_["variants"]):
+                        mgr_marks.add(f_["name"])
+
+            def from_setting(lv, depth=0):
+                """the value is computed from the stored setting and from `path.parent()` only"""
+                if not lv or depth > 4:
+                    return False
+                for l in lv:
+                    if l[0] == "param" and l[2] and l[2][-1] in mgr_marks:
+                        continue
+                    if l[0] == "const":
+                        continue
+                    if l[0] == "call" and l[1] == "std::path::Path::parent":
+                        continue
+                    if l[0] == "call" and l[1].split("::")[-1] in ("filter", "then", "then_some", "not", "and", "or"):
+                        t_ = b.blocks[l[2]]["term"]
+                        sub = set()
+                        for a_ in t_["args"]:
+                            pl_ = place_of(a_)
+                            cd_ = prog.closure_def_of_type(b.locals[pl_["l"]]) if pl_ is not None and not pl_["p"] else None
+                            if cd_:
+                                # what the closure computes from: its return value in terms of its captures
+                                cb_ = prog.bodies.get(cd_)
+                                csl_ = Slicer(ctx.world, cb_) if cb_ is not None else None
+                                caps = []
+                                for (dbb, j, rv) in b.assignments().get(pl_["l"], []):
+                                    if j != "term" and rv["k"] == "agg":
+                                        caps = rv["ops"]
+                                for x_ in (csl_.leaves_of_place({"l": 0, "p": []}) if csl_ else ()):
+                                    if x_[0] == "upvar" and x_[1] < len(caps):
+                                        sub |= sl.leaves_of_operand(caps[x_[1]], x_[2])
+                                    elif x_[0] == "const":
+                                        sub.add(x_)
+                                    else:
+                                        sub.add(("unknown", "closure", ()))
+                            else:
+                                sub |= sl.leaves_of_operand(a_)
+                        if from_setting(sub, depth + 1):
+                            continue
+                    return False
+                return True
             for sw in b.normal_blocks():
                 c = cfgutil.switch_condition(b, sw)
+                lv = None
                 if c and c[0] == "bool":
                     lv = sl.leaves_of_operand(c[1])
-                    if lv and all(l[0] == "param" and l[2] and l[2][-1] in mgr_flags for l in lv):
-                        tt, ff = cfgutil.true_false_edges(b, sw)
-                        # `!flag` is lowered as Not: switch_condition keeps the operand; accept either edge that bypasses mkdir
-                        for t in (tt, ff):
-                            if t is not None and not any(m.bb in cfgutil.reach(b, t) and not b.dominates(fsite.bb, m.bb)
-                                                         for m in mk):
-                                edges.append((sw, t))
+                elif c and c[0] == "discr":
+                    lv = sl.leaves_of_place(c[1])
+                    if lv and all(l[0] == "call" and l[1] == "std::path::Path::parent" for l in lv):
+                        lv = None       # (a path without a parent: below)
+                if lv and from_setting(lv) and any(not (l[0] == "call" and l[1] == "std::path::Path::parent") and l[0] != "const"
+                                                   for l in lv):
+                    # `!flag` is lowered as Not: switch_condition keeps the operand; accept either edge that bypasses mkdir
+                    for t in set(b.succs(sw)):
+                        if t is not None and b.blocks[t]["term"]["k"] != "unreachable" and not any(
+                                m.bb in cfgutil.reach(b, t) and not b.dominates(fsite.bb, m.bb) for m in mk):
+                            edges.append((sw, t))
             # a path without a parent has no directory to create
             for sw in b.normal_blocks():
                 c = cfgutil.switch_condition(b, sw)
@@ -369,7 +421,13 @@ def compare_sites(ctx, loaders, sstructs):
 def version_gate(ctx, r, loaders, sstructs):
     prog = ctx.prog
     for e in loaders:
-        b = e.site.body
+        # judged on the flat view of the loader: the version comparison may sit in a private `require_current_version`
+        b0 = e.site.body
+        b = ctx.flat(b0)
+        occ = [fs for fs in ctx.flat_sites_of(b, e.site) if fs.kind == "call"]
+        esite = occ[0] if occ else e.site
+        if not occ:
+            b = b0
         sl = Slicer(ctx.world, b)
         # candidate comparisons: <parsed>.version  vs  constant equal to a named crate constant
         gates = []
@@ -390,7 +448,7 @@ def version_gate(ctx, r, loaders, sstructs):
                         named = [p for p, cst in prog.consts.items() if cst.get("v") == l2[1] and "VERSION" in p.upper()]
                         gates.append((bb, l1[-1][-1], l2[1], named, t_false if op == "Ne" else t_true,
                                       t_true if op == "Ne" else t_false, l1[1]))
-        rfb = ctx.must(None).rf(b)
+        rfb = ctx.rf(b)
         for site in b.calls():
             tgt = prog.local_target(site)
             if tgt is None:
@@ -405,15 +463,15 @@ def version_gate(ctx, r, loaders, sstructs):
                     if len(oks) == 1 and len(errs) == 1 and oks[0][0] == errs[0][0]:
                         named = [p for p, cst in prog.consts.items() if cst.get("v") == y and "VERSION" in p.upper()]
                         gates.append((oks[0][0], x[1][-1], y, named, oks[0][1], errs[0][1], list(lx)[0][1]))
-        r.check(len(gates) >= 1, "version-compare", b,
+        r.check(len(gates) >= 1, "version-compare", b0,
                 "the loader compares %s" % "; ".join("parsed.%s with %s (= %s)" % (g[1], g[2], ",".join(g[3]) or "literal")
                                                      for g in gates),
                 "the settings loader does not compare a parsed field with the version constant")
         for g in gates:
-            r.check(bool(g[3]), "version-constant", b, "the constant is %s" % ",".join(g[3]),
+            r.check(bool(g[3]), "version-constant", b0, "the constant is %s" % ",".join(g[3]),
                     "the version is compared with the literal %s that is not a named *VERSION* constant" % g[2])
         # every Ok(Some(..)) return is dominated by the equal edge of a gate
-        rf = ctx.must(None).rf(b)
+        rf = ctx.rf(b)
         n = 0
         for bb in b.normal_blocks():
             for s in b.stmts(bb):
@@ -426,14 +484,60 @@ def version_gate(ctx, r, loaders, sstructs):
                         continue
                     n += 1
                     ok = any(cfgutil.edge_dominates(b, (g[0], g[4]), bb) for g in gates)
-                    r.check(ok, "ok-some-gated", b,
+                    r.check(ok, "ok-some-gated", b0,
                             "the Ok(Some(settings)) return at %s:%d is behind the version check" % (b.file, s.get("line", 0)),
                             "Ok(Some(settings)) at %s:%d can be returned without the version having been compared" % (
                                 b.file, s.get("line", 0)), "%s:%d" % (b.file, s.get("line", 0)))
-        r.check(n >= 1, "ok-some-exists", b, "%d Ok(Some) return(s)" % n, "no Ok(Some(settings)) return found in the loader")
+        # `validated.map(Some)`: the settings are handed out when the mapped Result is Ok - every `Ok(..)` it can be
+        # built from lies behind the version check
+        for s_ in b.calls():
+            if term_path(s_.term) != "std::result::Result::map" or s_.term["dest"]["p"] or len(s_.term["args"]) < 2:
+                continue
+            fn_ = s_.term["args"][1].get("const", {})
+            if "Some" not in str(fn_.get("fn", fn_.get("v", fn_.get("named", "")))):
+                continue
+            retl = {0}
+            ch = True
+            while ch:
+                ch = False
+                for l2 in list(retl):
+                    for (dbb, j2, rv2) in b.assignments().get(l2, []):
+                        if j2 != "term" and rv2["k"] == "use" and place_of(rv2["op"]) is not None and \
+                                not place_of(rv2["op"])["p"] and place_of(rv2["op"])["l"] not in retl:
+                            retl.add(place_of(rv2["op"])["l"])
+                            ch = True
+            if s_.term["dest"]["l"] not in retl:
+                continue
+
+            def ok_defs(l, depth=0, seen=None):
+                seen = seen if seen is not None else set()
+                if l in seen or depth > 8:
+                    return [None]
+                seen.add(l)
+                out_ = []
+                for (dbb, j2, rv2) in b.assignments().get(l, []):
+                    if j2 == "term":
+                        out_.append(None if not (term_path(rv2) or "").endswith("from_residual") else ("err", dbb))
+                    elif rv2["k"] == "agg" and rv2.get("def") == "std::result::Result":
+                        out_.append(("ok" if rv2.get("vn") == "Ok" else "err", dbb))
+                    elif rv2["k"] == "use" and place_of(rv2["op"]) is not None and not place_of(rv2["op"])["p"]:
+                        out_ += ok_defs(place_of(rv2["op"])["l"], depth + 1, seen)
+                    else:
+                        out_.append(None)
+                return out_ or [None]
+            pl_ = place_of(s_.term["args"][0])
+            ds = ok_defs(pl_["l"]) if pl_ is not None and not pl_["p"] else [None]
+            n += 1
+            okm = all(d is not None for d in ds) and any(d[0] == "ok" for d in ds) and all(
+                d[0] != "ok" or any(cfgutil.edge_dominates(b, (g[0], g[4]), d[1]) for g in gates) for d in ds)
+            r.check(okm, "ok-some-gated", b0,
+                    "the settings handed out through map(Some) at %s are Ok only behind the version check" % site_where(s_),
+                    "Ok(Some(settings)) via map(Some) at %s can be returned without the version having been compared" %
+                    site_where(s_), site_where(s_))
+        r.check(n >= 1, "ok-some-exists", b0, "%d Ok(Some) return(s)" % n, "no Ok(Some(settings)) return found in the loader")
         # "no settings stored" (Ok(None): the caller creates a fresh database) only when the file is absent: the return
         # lies behind the Err edge of the read and behind the equal edge of a test of the error's kind
-        errs = rf.err_edges_of(e.site.bb)
+        errs = rf.err_edges_of(esite.bb)
         kind_edges = []
         for bb in b.normal_blocks():
             c = cfgutil.eq_edges(b, bb)
@@ -452,7 +556,7 @@ def version_gate(ctx, r, loaders, sstructs):
                         continue
                     ok = bool(errs) and cfgutil.edges_dominate(b, errs, bb) and bool(kind_edges) and \
                         cfgutil.edges_dominate(b, kind_edges, bb)
-                    r.check(ok, "none-only-if-absent", b,
+                    r.check(ok, "none-only-if-absent", b0,
                             "Ok(None) at %s:%d only when reading the settings file failed with the tested error kind (file "
                             "absent)" % (b.file, st.get("line", 0)),
                             "the loader can answer Ok(None) ('no settings stored: create a fresh database') at %s:%d although "
